@@ -5,6 +5,7 @@
 (*                            (offset, byte) pairs: any block split is accepted) and the        *)
 (*                            reported labels equal the spec's                                  *)
 (*   spec outcome "fail"   -> a816 must report failure                                          *)
+(*   spec outcome "either" -> may fail; if it assembles, image and labels must equal the spec's  *)
 (*   spec outcome "unspec" -> the statements give the program no meaning: not judged (counted)  *)
 EXTENDS Asm, Json, IOUtils
 
@@ -27,7 +28,7 @@ Verdict(r) ==
     IF s.outcome = "unspec" THEN [c |-> "unspec", d |-> s.why]
     ELSE IF s.outcome = "fail"
          THEN (IF r.obs.ok THEN [c |-> "assembled a program that must fail", d |-> s.why] ELSE [c |-> "ok", d |-> ""])
-    ELSE IF ~r.obs.ok THEN [c |-> "rejected a valid program", d |-> ""]
+    ELSE IF ~r.obs.ok THEN (IF s.outcome = "either" THEN [c |-> "ok", d |-> ""] ELSE [c |-> "rejected a valid program", d |-> ""])
     ELSE LET f == Flat(r.obs.calls) IN
          IF f # s.img
          THEN [c |-> "image", d |-> "first difference at pair " \o ToString(FirstDiff(f, s.img)) \o
